@@ -7,7 +7,7 @@ FACTORY = 'dv.sys_meta:MetaSys'
 def configs(tier):
     cfgs = []
     for kind in ('array', 'ragged'):
-        for start in ('none', 'given'):
+        for start in ('none', 'given', 'emptydict'):
             for fam in ('two', 'three'):
                 cfgs.append({'kind': kind, 'start': start, 'family': fam})
     return cfgs
